@@ -7,7 +7,7 @@ import (
 	"fmt"
 	"os"
 
-	"verifharness/c15"
+	_ "verifharness/all"
 	"verifharness/kit"
 )
 
@@ -26,21 +26,19 @@ func main() {
 	replay := fs.String("replay", "", "replay one stored case")
 	shard := fs.Int("shard", 0, "shard index (thorough tier)")
 	fs.Parse(os.Args[2:])
-	_ = shard
 	out, err := kit.NewOut(*outp)
 	if err != nil {
 		fmt.Fprintln(os.Stderr, err)
 		os.Exit(2)
 	}
-	switch id {
-	case "C15":
-		if *replay != "" {
-			err = c15.Replay(*replay, out)
-		} else {
-			err = c15.Generate(*seed, *n, *tier, *corpus, out)
-		}
-	default:
+	r, ok := kit.Registry[id]
+	switch {
+	case !ok:
 		err = fmt.Errorf("unknown property %s", id)
+	case *replay != "":
+		err = r.Replay(*replay, out)
+	default:
+		err = r.Generate(*seed, *n, *tier, *corpus, *shard, out)
 	}
 	if cerr := out.Close(); err == nil {
 		err = cerr
